@@ -307,6 +307,21 @@ func init() {
 		}
 		return mkCtx(c)
 	})
+	reg("verif_ForkContext", func(p *Path, fn *ssa.Function, a []Value) Value {
+		c := *ctxOf(p, a[0])
+		ns := map[*Cell]*StoreObj{}
+		for k, s := range c.stores {
+			cp := *s
+			ns[k] = &cp
+		}
+		c.stores = ns
+		np := map[string]Value{}
+		for k, v := range c.params {
+			np[k] = v
+		}
+		c.params = np
+		return mkCtx(&c)
+	})
 	reg("verif_Codec", func(p *Path, fn *ssa.Function, a []Value) Value {
 		return IfaceV{t: opaqueType, v: OpaqueV{kind: "codec", data: "codec"}}
 	})
